@@ -62,9 +62,13 @@ PROPERTY ClosedIsFinal
         sup_set = set(reset["supported"])
         cls = "supported" if reset["cp"] in sup_set else "unsupported"
         st_before = "awaiting" if rj["bad_index"] == 1 else "responded"
-        key = "%s-proto:%s@%s->%s" % (cls, bad.get("send"), st_before, bad.get("got"))
+        if bad.get("ev") == "pipe":
+            key = "%s-proto:pipelined[%s]->[%s]%s" % (cls, ",".join(x["k"] for x in bad["sends"]),
+                                                       ",".join(o["got"] for o in bad["outs"]), "" if bad["closed"] else ",open")
+        else:
+            key = "%s-proto:%s@%s->%s" % (cls, bad.get("send"), st_before, bad.get("got"))
         ctx.finding(key, "status connection (client protocol %s, %d online): reaction to '%s' not allowed by "
-                    "Status spec: %s" % (reset["cp"], reset["online"], bad.get("send"), json.dumps(bad)), rj)
+                    "Status spec: %s" % (reset["cp"], reset["online"], bad.get("send", "pipelined packets"), json.dumps(bad)[:600]), rj)
     cov = {
         "samples": st["samples"],
         "evaluations": st["runs"],
@@ -74,6 +78,7 @@ PROPERTY ClosedIsFinal
         "protocol_numbers": len(clients) + len(gaps),
         "unsupported_protocol_numbers": gaps,
         "trace_events_validated": matched,
+        "pipelined_runs": sum(1 for x in recs if x.get("ev") == "pipe"),
         "exhaustive": not ctx.quick,
         "states": r.distinct + tstates,
     }
